@@ -89,6 +89,17 @@ def step (s : St) (toks : List String) : St × String :=
   | ["purge", b] =>
     match Bytes.ofHex b with | some b => runOp s (.purge b) | none => (s, "bad-op")
   | ["visit"] => runOp s .visit
+  | ["visitk", k] =>
+    -- a visitor that stops the walk at the k-th non-empty mailbox: how many non-empty mailboxes it is shown (the walk order is the back-end's own)
+    match k.toNat? with
+    | some k =>
+      let shown (o : Out) : String := match o with | .boxes l => s!"shown:{(l.take k).length}" | _ => "bad"
+      let (_, o1, _) := Spec.Store.step s.cfg s.spec .visit
+      let (_, o0, _) := Spec.Store.step { s.cfg with limit := 0 } s.specF .visit
+      let (_, o2, _) := Model.Mem.step s.cfg s.mem .visit
+      let (_, o3, _) := Model.FileStore.step s.cfg s.file .visit
+      (s, s!"spec={shown o1};ev: mem={shown o2};ev: specF={shown o0};ev: file={shown o3};ev:")
+    | none => (s, "bad-op")
   | ["reopen"] => ({ s with file := Model.FileStore.reopen s.file }, "ok")
   | _ => (s, "bad-op")
 
